@@ -15,7 +15,7 @@ func bitMask(bits BitCnt, w expr.Width) expr.Expr {
 	// Optimization for those masks we are able to calculate using
 	// in-language features to make the description simpler and possible
 	// further execution faster.
-	if bits <= 64 {
+	if bits <= 64 && uint16(bits) <= w.Bits() {
 		return expr.NewConstUint(uint64((1<<bits)-1), w)
 	}
 
